@@ -36,6 +36,15 @@ structure Entry where
 
 variable {O : Type}
 
+/-- the part of `Jm.StepOK` that does not mention the reward: everything the constructors of `jumanji/types.py`
+build themselves (step type, discount) — the reward is passed through unchanged -/
+def DiscOK (sh : RShape) (truncOK : Bool) (ts : TimeStep O) : Bool :=
+  ts.stepType != .first &&
+  ts.discount.length == sh.size &&
+  allIn01 ts.discount &&
+  (ts.stepType != .mid || !(allZero ts.discount)) &&
+  (ts.stepType != .last || truncOK || allZero ts.discount)
+
 def evalBranch (b : Branch) (sh : RShape) (r : List Rat) (o : O) (disc : List Rat) : TimeStep O :=
   let s : RShape := if b.hasShape then sh else none
   match b.ctor with
@@ -70,6 +79,14 @@ def Entry.wellFormed (e : Entry) : Bool :=
     b0.ctor == .transition && b1.ctor == .termination && b2.ctor == .truncation && b3.ctor == .termination &&
     b0.hasShape == e.multi && b1.hasShape == e.multi && b2.hasShape == e.multi && b3.hasShape == e.multi &&
     !b0.hasDiscount && !b2.hasDiscount
+  | .unrecognised => false
+
+/-- does the expression pass an explicit `discount=` to a constructor (Connector's MID branch)?  Only then does
+the environment, not `jumanji/types.py`, build the discount. -/
+def Entry.explicitDiscount (e : Entry) : Bool :=
+  match e.step with
+  | .cond t f => t.hasDiscount || f.hasDiscount
+  | .switch4 b0 b1 b2 b3 => b0.hasDiscount || b1.hasDiscount || b2.hasDiscount || b3.hasDiscount
   | .unrecognised => false
 
 /-- does the expression use documented truncation (LAST with non-zero discount)? -/
